@@ -52,15 +52,16 @@ theorem C18_gen_init_enter (W : World Unit) (c : Ctx) (routes : List U) (route c
     (hr : route.isUnprovided = false) (hc : exceeded c.md c.depth = false) :
     decode (Options.RuntimeContext_init W (.obj "RuntimeContext" []) (encCtx c routes) cls route fe eh (encOptions c.md))
       = some (outDepth (enter Quirks.fixed c falsy m), routes ++ [route]) := by
-  obtain ⟨depth, mode, md⟩ := c
-  cases md with
-  | none => ctx_simp [hr]
-  | some k =>
-    simp only [exceeded] at hc
-    by_cases h0 : k = 0
-    · subst h0; ctx_simp [hr]
-    · have h1 : ¬ k < depth := by simp_all
-      ctx_simp [hr, h0, h1]
+  gen_obligation "C18_gen_init_enter: the regenerated code (Utv.Gen) is no longer equal to the hand model here" by
+    obtain ⟨depth, mode, md⟩ := c
+    cases md with
+    | none => ctx_simp [hr]
+    | some k =>
+      simp only [exceeded] at hc
+      by_cases h0 : k = 0
+      · subst h0; ctx_simp [hr]
+      · have h1 : ¬ k < depth := by simp_all
+        ctx_simp [hr, h0, h1]
 
 /-- a nested data class (no route, a class): one level deeper; `DepthExceedError` iff `exceeded max_depth (depth+1)`
 (`md` is the class's own `max_depth`: `make_context` passes the class's options) -/
@@ -68,42 +69,45 @@ theorem C18_gen_init_level (W : World Unit) (c : Ctx) (routes : List U) (cls fe 
     (hcls : cls.isNone = false) :
     decode (Options.RuntimeContext_init W (.obj "RuntimeContext" []) (encCtx c routes) cls .unprovided fe eh (encOptions md))
       = some (if exceeded md (c.depth + 1) then (.err { depth := true }, []) else (.ok (c.depth + 1), routes)) := by
-  obtain ⟨depth, mode, cmd⟩ := c
-  cases md with
-  | none => ctx_simp [hcls, OVal.isUnprovided]
-  | some k =>
-    by_cases h0 : k = 0
-    · subst h0; ctx_simp [hcls, OVal.isUnprovided]
-    · by_cases h1 : k < depth + 1
-      · have h1' : (k : Int) < (depth : Int) + 1 := by omega
-        ctx_simp [hcls, OVal.isUnprovided, h0, h1, h1']
-      · have h1' : ¬ (k : Int) < (depth : Int) + 1 := by omega
-        ctx_simp [hcls, OVal.isUnprovided, h0, h1, h1']
+  gen_obligation "C18_gen_init_level: the regenerated code (Utv.Gen) is no longer equal to the hand model here" by
+    obtain ⟨depth, mode, cmd⟩ := c
+    cases md with
+    | none => ctx_simp [hcls, OVal.isUnprovided]
+    | some k =>
+      by_cases h0 : k = 0
+      · subst h0; ctx_simp [hcls, OVal.isUnprovided]
+      · by_cases h1 : k < depth + 1
+        · have h1' : (k : Int) < (depth : Int) + 1 := by omega
+          ctx_simp [hcls, OVal.isUnprovided, h0, h1, h1']
+        · have h1' : ¬ (k : Int) < (depth : Int) + 1 := by omega
+          ctx_simp [hcls, OVal.isUnprovided, h0, h1, h1']
 
 /-- the class-less root context (`type_transform`, a function call): level 0, no routes -/
 theorem C18_gen_init_root (W : World Unit) (fe eh : U) (md : Option Nat) :
     decode (Options.RuntimeContext_init W (.obj "RuntimeContext" []) .none .none .unprovided fe eh (encOptions md))
       = some (.ok 0, []) := by
-  cases md with
-  | none => ctx_simp [OVal.isUnprovided, OVal.isNone]
-  | some k =>
-    by_cases h0 : k = 0
-    · subst h0; ctx_simp [OVal.isUnprovided, OVal.isNone]
-    · have h1' : ¬ (k : Int) < 0 := by omega
-      ctx_simp [OVal.isUnprovided, OVal.isNone, h0, h1']
+  gen_obligation "C18_gen_init_root: the regenerated code (Utv.Gen) is no longer equal to the hand model here" by
+    cases md with
+    | none => ctx_simp [OVal.isUnprovided, OVal.isNone]
+    | some k =>
+      by_cases h0 : k = 0
+      · subst h0; ctx_simp [OVal.isUnprovided, OVal.isNone]
+      · have h1' : ¬ (k : Int) < 0 := by omega
+        ctx_simp [OVal.isUnprovided, OVal.isNone, h0, h1']
 
 /-- the root context of a class (`K(**data)`): level 1, checked against the class's `max_depth` -/
 theorem C18_gen_init_class_root (W : World Unit) (cls fe eh : U) (md : Option Nat) (hcls : cls.isNone = false) :
     decode (Options.RuntimeContext_init W (.obj "RuntimeContext" []) .none cls .unprovided fe eh (encOptions md))
       = some (if exceeded md 1 then (.err { depth := true }, []) else (.ok 1, [])) := by
-  cases md with
-  | none => ctx_simp [hcls, OVal.isUnprovided]
-  | some k =>
-    by_cases h0 : k = 0
-    · subst h0; ctx_simp [hcls, OVal.isUnprovided]
-    · by_cases h1 : k < 1
-      · omega
-      · have h1' : ¬ (k : Int) < 1 := by omega
-        ctx_simp [hcls, OVal.isUnprovided, h0, h1, h1']
+  gen_obligation "C18_gen_init_class_root: the regenerated code (Utv.Gen) is no longer equal to the hand model here" by
+    cases md with
+    | none => ctx_simp [hcls, OVal.isUnprovided]
+    | some k =>
+      by_cases h0 : k = 0
+      · subst h0; ctx_simp [hcls, OVal.isUnprovided]
+      · by_cases h1 : k < 1
+        · omega
+        · have h1' : ¬ (k : Int) < 1 := by omega
+          ctx_simp [hcls, OVal.isUnprovided, h0, h1, h1']
 
 end Utv.GenEq.C18
